@@ -8,6 +8,7 @@ import (
 	"verif/simkit"
 
 	"github.com/canopy-network/canopy/lib"
+	"google.golang.org/protobuf/proto"
 )
 
 // C19 faults: corrupted copies of transactions and block messages reach the real mempool and the
@@ -29,6 +30,36 @@ func (w *world) guard(what string, f func()) {
 		}
 	}()
 	f()
+}
+
+// nestedUnknown: the honest encoding plus ONE unknown field inside a sub-message (any depth, elements of
+// repeated fields included). The decoder of consensus-critical messages has to refuse it (C19: "rejects
+// unknown fields"); a transaction variant is also registered as must-never-execute.
+func (w *world) nestedUnknown(what string, honest []byte, scratch proto.Message, fresh func() proto.Message, isTx bool) {
+	c := w.c
+	bad, path := simkit.NestedUnknown(honest, scratch)
+	if bad == nil || bytes.Equal(bad, honest) {
+		return
+	}
+	c.Fault(what + "_unknown_field_nested")
+	if isTx {
+		if _, dup := w.mustFail[string(bad)]; !dup {
+			w.mustFail[string(bad)] = "C19|corrupted-unknown-field-nested"
+		}
+	}
+	var err error
+	w.guard("lib.Unmarshal("+what+", unknown-field-nested)", func() { err = lib.Unmarshal(bad, fresh()) })
+	if err == nil {
+		c.ReportFor("C19", "decoder-rejects-unknown-fields", "nested-unknown-field-accepted:"+what, fmt.Sprintf("lib.Unmarshal accepted a %s whose sub-message %s carries unknown field 1997", what, path))
+	}
+	// the same at the top level
+	tag := []byte{0xe8, 0x7c, 1} // field 1997, varint 1
+	top := append(append([]byte(nil), honest...), tag...)
+	err = nil
+	w.guard("lib.Unmarshal("+what+", unknown-field-appended)", func() { err = lib.Unmarshal(top, fresh()) })
+	if err == nil {
+		c.ReportFor("C19", "decoder-rejects-unknown-fields", "unknown-field-accepted:"+what, fmt.Sprintf("lib.Unmarshal accepted a %s with unknown field 1997 appended", what))
+	}
 }
 
 func (w *world) corruptTx(g *genTx) {
@@ -56,6 +87,7 @@ func (w *world) corruptTx(g *genTx) {
 			}
 		})
 	}
+	w.nestedUnknown("transaction", g.bz, new(lib.Transaction), func() proto.Message { return new(lib.Transaction) }, true)
 	w.txSeq++
 	c.Fault("tx_corrupted_" + kind)
 	c.Logf("tx#%d CORRUPTED(%s) copy of: %s (accepted by %d mempools)", w.txSeq, kind, g.desc, nOK)
@@ -70,6 +102,13 @@ func (w *world) corruptBlockMessage(n *node, qc *lib.QuorumCertificate) {
 		return
 	}
 	bad, kind := simkit.MutateBytes(c.T, bz)
+	// the types lib.Unmarshal itself treats as critical: the certificate and the block it carries
+	if qbz, e := lib.Marshal(qc); e == nil {
+		w.nestedUnknown("certificate", qbz, new(lib.QuorumCertificate), func() proto.Message { return new(lib.QuorumCertificate) }, false)
+	}
+	if len(qc.Block) > 0 {
+		w.nestedUnknown("block", qc.Block, new(lib.Block), func() proto.Message { return new(lib.Block) }, false)
+	}
 	w.focus(n)
 	before := n.st.Version()
 	var herr error
